@@ -317,5 +317,84 @@ theorem evm_swap {op : Nat} (hop : (f.code[f.pc]?).getD 0 = op) (h1 : 0x90 ≤ o
   have hd : (0x80 ≤ op && op ≤ 0x8f) = false := by simp; omega
   simp only [hp, hd, ↓reduceIte, Bool.false_eq_true]
 
+/-! ### memory -/
+
+theorem touch_code (f : Evm.Frame) (off n : Nat) : (f.touch off n).code = f.code := by
+  unfold Evm.Frame.touch; split <;> rfl
+theorem touch_caller (f : Evm.Frame) (off n : Nat) : (f.touch off n).caller = f.caller := by
+  unfold Evm.Frame.touch; split <;> rfl
+theorem touch_value (f : Evm.Frame) (off n : Nat) : (f.touch off n).value = f.value := by
+  unfold Evm.Frame.touch; split <;> rfl
+theorem touch_this (f : Evm.Frame) (off n : Nat) : (f.touch off n).this = f.this := by
+  unfold Evm.Frame.touch; split <;> rfl
+theorem touch_calldata (f : Evm.Frame) (off n : Nat) : (f.touch off n).calldata = f.calldata := by
+  unfold Evm.Frame.touch; split <;> rfl
+theorem touch_mem (f : Evm.Frame) (off n : Nat) : (f.touch off n).mem = f.mem := by
+  unfold Evm.Frame.touch; split <;> rfl
+theorem touch_pc (f : Evm.Frame) (off n : Nat) : (f.touch off n).pc = f.pc := by
+  unfold Evm.Frame.touch; split <;> rfl
+
+/-- what a core step leaves alone -/
+def SameCtx (f' f : Evm.Frame) : Prop :=
+  f'.code = f.code ∧ f'.caller = f.caller ∧ f'.value = f.value ∧ f'.this = f.this ∧ f'.calldata = f.calldata
+
+theorem memOk_of_le {p : Evm.Params} {off n : Nat} (h : off + n ≤ p.memLimit) : Evm.memOk p off n = true := by
+  simp [Evm.memOk, h]
+
+theorem evm_mload (hop : (f.code[f.pc]?).getD 0 = 0x51) (hl : ¬ f.stack.length > 1024) {off s}
+    (hst : f.stack = off :: s) (hok : off + 32 ≤ p.memLimit) :
+    ∃ f', Evm.step p w f = .next w f' ∧ SameCtx f' f ∧ f'.pc = f.pc + 1 ∧ f'.mem = f.mem ∧
+      f'.stack = Evm.bytesToNat (Evm.readBytes f.mem off 32) :: s := by
+  unfold Evm.step; simp only [hop, hl, ↓reduceIte]
+  simp only [hst, memOk_of_le hok, Bool.not_true, Bool.false_eq_true, ↓reduceIte]
+  exact ⟨_, rfl, ⟨touch_code .., touch_caller .., touch_value .., touch_this .., touch_calldata ..⟩,
+    by simp only [touch_pc], by simp only [touch_mem], by simp only [touch_mem]⟩
+
+theorem evm_mstore (hop : (f.code[f.pc]?).getD 0 = 0x52) (hl : ¬ f.stack.length > 1024) {off v s}
+    (hst : f.stack = off :: v :: s) (hok : off + 32 ≤ p.memLimit) :
+    ∃ f', Evm.step p w f = .next w f' ∧ SameCtx f' f ∧ f'.pc = f.pc + 1 ∧ f'.stack = s ∧
+      f'.mem = Evm.writeBytes f.mem off (Evm.natToBytes 32 v) := by
+  unfold Evm.step; simp only [hop, hl, ↓reduceIte]
+  simp only [hst, memOk_of_le hok, Bool.not_true, Bool.false_eq_true, ↓reduceIte]
+  exact ⟨_, rfl, ⟨touch_code .., touch_caller .., touch_value .., touch_this .., touch_calldata ..⟩,
+    by simp only [touch_pc], rfl, by simp only [touch_mem]⟩
+
+theorem evm_mstore8 (hop : (f.code[f.pc]?).getD 0 = 0x53) (hl : ¬ f.stack.length > 1024) {off v s}
+    (hst : f.stack = off :: v :: s) (hok : off + 1 ≤ p.memLimit) :
+    ∃ f', Evm.step p w f = .next w f' ∧ SameCtx f' f ∧ f'.pc = f.pc + 1 ∧ f'.stack = s ∧
+      f'.mem = Evm.writeBytes f.mem off [v % 256] := by
+  unfold Evm.step; simp only [hop, hl, ↓reduceIte]
+  simp only [hst, memOk_of_le hok, Bool.not_true, Bool.false_eq_true, ↓reduceIte]
+  exact ⟨_, rfl, ⟨touch_code .., touch_caller .., touch_value .., touch_this .., touch_calldata ..⟩,
+    by simp only [touch_pc], rfl, by simp only [touch_mem]⟩
+
+/-- MLOAD / MSTORE / MSTORE8 with too few operands -/
+theorem evm_mem_short {op : Nat} (hop : (f.code[f.pc]?).getD 0 = op) (hl : ¬ f.stack.length > 1024)
+    (h : (op = 0x51 ∧ f.stack = []) ∨ ((op = 0x52 ∨ op = 0x53) ∧ f.stack.length < 2)) :
+    Evm.step p w f = .halt w .stackUnderflow := by
+  rcases h with ⟨rfl, hst⟩ | ⟨rfl | rfl, hst⟩
+  · unfold Evm.step; simp only [hop, hl, ↓reduceIte]; simp only [hst]
+  · unfold Evm.step; simp only [hop, hl, ↓reduceIte]
+    match h : f.stack, hst with
+    | [], _ => rfl
+    | [_], _ => rfl
+  · unfold Evm.step; simp only [hop, hl, ↓reduceIte]
+    match h : f.stack, hst with
+    | [], _ => rfl
+    | [_], _ => rfl
+
+/-- RETURN / REVERT of a memory range within the limit -/
+theorem evm_ret {op : Nat} (hop : (f.code[f.pc]?).getD 0 = op) (h : op = 0xf3 ∨ op = 0xfd)
+    (hl : ¬ f.stack.length > 1024) {off len s} (hst : f.stack = off :: len :: s)
+    (hok : len = 0 ∨ off + len ≤ p.memLimit) :
+    Evm.step p w f = .halt w (if op = 0xf3 then .success (Evm.readBytes f.mem off len)
+                              else .revert (Evm.readBytes f.mem off len)) := by
+  rw [evm_ret_raw hop h hl]; simp only [hst]
+  have : Evm.memOk p off len = true := by
+    rcases hok with h0 | h0
+    · simp [Evm.memOk, h0]
+    · exact memOk_of_le h0
+  simp only [this, Bool.not_true, Bool.false_eq_true, ↓reduceIte]
+
 end
 end HalmosVerif.Lemmas.Sevm
